@@ -170,6 +170,43 @@ def run(ctx):
                   'write_connection_request arguments derive from parameters %s (not from the authentication protocol)' % sorted(srcs),
                   c.where(), 'the connection request is built from the authentication protocol object')
 
+    # ---- R02.2b what the reply is checked against is what was offered on the wire: the mask reaches the request unchanged -------------
+    import dsl
+
+    def pure_param(e, param):
+        nodes = list(walk(e))
+        if not any(n == ('param', param) for n in nodes):
+            return False
+        for n in nodes:
+            if n[0] in ('bin', 'un', 'unknown', 'mutated', 'index', 'upd'):
+                return False
+            if n[0] == 'param' and n[1] != param:
+                return False
+            if n[0] == 'call' and not re.search(r'Option::<T>::unwrap_or$', n[1]):
+                return False
+        return True
+    chain = ((X_CONNECT.rsplit('::', 1)[0] + '::write_connection_request', 'core::x224::x224_connection_pdu', 2, 2, 'security_protocols'),
+             ('core::x224::x224_connection_pdu', 'core::x224::rdp_neg_req', 1, 3, 'protocols'))
+    for fn, callee, argi, parami, what in chain:
+        fb = ctx.body(fn)
+        n_c = 0
+        for path, st in feasible_paths(fb, P, limit=20000):
+            for ev in path_calls(st, [callee]):
+                n_c += 1
+                a = resolve(st, ev[2][argi])
+                ctx.check(pure_param(a, parami), 'R02.2', 'offer:%s' % fn.rsplit('::', 1)[-1],
+                          '%s hands its %s parameter to %s unchanged' % (fn.rsplit('::', 1)[-1], what, callee.rsplit('::', 1)[-1]), fb.where(),
+                          '%s modifies the offered protocol mask before it is written into the connection request (%s): the reply is then checked against '
+                          'protocols that were never offered on the wire' % (fn, show(strip(a))[:80]))
+        ctx.floor('R02.2', 'calls of %s in %s' % (callee.rsplit('::', 1)[-1], fn.rsplit('::', 1)[-1]), n_c, 1)
+    n_f = 0
+    for sh, fl in dsl.returned_components(P, 'core::x224::rdp_neg_req'):
+        f = [x for x in fl if x.key == 'result']
+        n_f += 1
+        ctx.check(bool(f) and pure_param(f[0].expr, 2), 'R02.2', 'offer:field', 'the requestedProtocols field of the negotiation request is the offered mask itself',
+                  sh.body.where(), 'rdp_neg_req does not write its protocol parameter unchanged into the requestedProtocols field')
+    ctx.floor('R02.2', 'shapes of rdp_neg_req', n_f, 1)
+
     # ---- R02.3 read_connection_confirm -------------------------------------------------------
     rc = ctx.body(X_CONFIRM)
     n_ok = 0
